@@ -345,10 +345,25 @@ def gen_cases(path, seed, n, hosts, family="mixed", depth=2, steps=14, budget=8,
         f.write(out)
 
 
+class HarnessCrash(ToolError):
+    def __init__(self, msg, journal):
+        super().__init__(msg)
+        self.journal = journal
+
+
 def run_harness(cases_path, trace_path, mode="run"):
-    rc, out = sh([BIN, mode, cases_path, trace_path], timeout=1800)
+    jp = trace_path + ".journal"
+    rc, out = sh([BIN, mode, cases_path, trace_path], timeout=1800, env={"VERIF_JOURNAL": jp})
     if rc != 0:
-        raise ToolError("harness failed:\n" + out[-3000:])
+        j = None
+        if os.path.exists(jp):
+            try:
+                j = json.load(open(jp))
+            except ValueError:
+                pass
+        raise HarnessCrash(f"harness died (exit {rc}):\n" + out[-1500:], j)
+    if os.path.exists(jp):
+        os.remove(jp)
 
 
 def corrupt_selftest(run, spec, trace_path, kfs=None):
